@@ -237,11 +237,30 @@ func c11Case(c *core.Ctx, idx int) {
 
 		// --- damaged input: whatever Unmarshal returns, what it left in the target owns its memory ---
 		if len(data) > 1 {
+			older := (&editor{r: rv, tg: &gen.TG{R: rv, C: tc.cfg, Lib: true}, stats: map[string]int{}}).edit(tc.typ, 0)
 			for k := 0; k < 3; k++ {
 				bad := damage(rv, data)
 				gb, err := mon.NewGuard(bad)
 				if err != nil {
 					break
+				}
+				// a fault inside the data of the mapping can only be a write: the bytes are readable.
+				// The full type and an older version of it (fields removed, renamed, added: the
+				// decoder skips what it does not know) both get the damaged bytes
+				dLo, dHi := gb.DataRange()
+				for _, rt := range []reflect.Type{tc.typ, older} {
+					to := reflect.New(rt)
+					var oerr error
+					wf, at := mon.FaultAt(func() { oerr = tc.p.Unmarshal(gb.Data, to.Interface()) })
+					rec.Eval(1)
+					if wf != "" && at >= dLo && at < dHi {
+						rec.Violation("input-modified", fmt.Sprintf("Unmarshal of a damaged input wrote to the input buffer at offset %d of %d (%s) %s\n  target type %s\n  damaged bytes %s", at-dLo, len(bad), wf, desc(), typeString(rt), hexHead(bad)), caseExtra(tc, v, bad))
+						gb.Free()
+						return
+					}
+					if wf == "" && oerr != nil {
+						rec.Count("damaged_inputs_rejected_from_read_only_memory", 1)
+					}
 				}
 				tb := reflect.New(tc.typ)
 				var berr error
